@@ -259,12 +259,20 @@ func (x *c19) allocateAndProbe(c *sim.RawClient, peer *sim.Peer, opts sim.AllocO
 		x.w.Sleep(wait)
 		x.m.Audit(nil)
 	}
+	refreshedBetween := false
+	if x.rng.Intn(3) == 0 {
+		// the client has refreshed in between (it evidently got the first answer): a late copy of the
+		// original Allocate is still answered like the first time
+		if r := x.m.Refresh(c, sim.U32(uint32(600+x.rng.Intn(2000)))); r != nil && r.Class == wire.ClassSuccess {
+			refreshedBetween = true
+		}
+	}
 	before := x.stateDigest()
 	calls := x.w.Gen.CallCount("udp")
 	x.m.Retransmitted(c, tid)
 	r2 := c.Exchange(rawReq, tid)
 	x.m.Audit(nil)
-	x.rec.FP("retransmit/wait%s/%d", wait, codeOfMsg(r2))
+	x.rec.FP("retransmit/wait%s/%d/refreshed-between=%v", wait, codeOfMsg(r2), refreshedBetween)
 	if r2 == nil || r2.Class != wire.ClassSuccess {
 		x.rec.Violate("retransmit-different", "not-success", "%s: retransmitted Allocate (same transaction id) answered %d, first answer was success", c.Name, codeOfMsg(r2))
 	} else {
@@ -279,6 +287,19 @@ func (x *c19) allocateAndProbe(c *sim.RawClient, peer *sim.Peer, opts sim.AllocO
 	_ = callsBefore
 	// a different Allocate on the live 5-tuple: 437, nothing changes (model wrapper checks the code)
 	x.m.Allocate(c, sim.AllocOpts{Lifetime: sim.U32(uint32(1 + x.rng.Intn(3000)))})
+	if x.rng.Intn(3) == 0 {
+		// ... also when its transaction id is the all-zero one
+		var zero [12]byte
+		bz := wire.NewBuilder(wire.MethodAllocate, wire.ClassRequest, zero)
+		bz.Add(wire.AttrRequestedTransport, []byte{17, 0, 0, 0})
+		c.AddAuth(bz)
+		x.m.Track(c, zero, wire.MethodAllocate)
+		rz := c.Exchange(bz.Bytes(), zero)
+		x.m.Audit(nil)
+		if rz == nil || rz.Class != wire.ClassError || rz.ErrorCode() != 437 {
+			x.rec.Violate("retransmit-different", "zero-tid", "%s: Allocate with the all-zero transaction id on a live 5-tuple answered %d, want 437", c.Name, codeOfMsg(rz))
+		}
+	}
 	if x.stateDigest() != before {
 		x.rec.Violate("errorpath-changed-state", "437", "%s: Allocate on a live 5-tuple changed server state", c.Name)
 	}
